@@ -209,6 +209,11 @@ def _value(value):
         return list(value) if isinstance(value, tuple) else as_list(value)
 
 
+def _named(row):
+    """ the cells of a row that a function can receive as keywords: those under string keys """
+    return row if is_strs(row.keys()) else {key : value for key, value in row.items() if is_str(key)}
+
+
 def _nan(value):
     """ is value a nan? (is_nan is also True for +/-inf) """
     return is_float(value) and value != value
@@ -538,7 +543,7 @@ class dictable(Dict):
                 filters.update(function)
             else:
                 f = kwargs_support(function)
-                res = type(self)([row for row in res if f(**row)])
+                res = type(self)([row for row in res if f(**_named(row))])
         for key, value in filters.items():
             if value is None:
                 res = res[[r is None for r in res[key]]]
@@ -630,7 +635,7 @@ class dictable(Dict):
                 filters.update(function)
             else:
                 f = kwargs_support(function)
-                res = type(self)([row for row in res if not f(**row)])
+                res = type(self)([row for row in res if not f(**_named(row))])
         if filters and len(res):
             include = and_(filters)
             res = res[[not include(row) for row in res]]            
@@ -699,7 +704,7 @@ class dictable(Dict):
     
     def apply(self, function, **default_params):
         f = kwargs_support(function)        
-        return [f(**_dict_in_place_update(default_params,row)) for row in self] ## we update in place since all rows share same keys
+        return [f(**_dict_in_place_update(default_params,_named(row))) for row in self] ## we update in place since all rows share same keys
 
 
     def do(self, function, *keys):
